@@ -96,7 +96,14 @@ Fixpoint pick_deficit (e : list Z) (d : dists) (i : nat) (best : option (Z * nat
 
 Definition dummy_arc : arc := {| a_from := O; a_to := O; a_cost := 0; a_fp := 0; a_fm := 0 |}.
 
-(* walk back from l to k along the predecessor arcs *)
+(* one step of an augmenting path: arc index and direction of traversal *)
+Definition step_src (arcs : list arc) (st : nat * bool) : nat :=
+  let a := nth (fst st) arcs dummy_arc in if snd st then a_from a else a_to a.
+Definition step_dst (arcs : list arc) (st : nat * bool) : nat :=
+  let a := nth (fst st) arcs dummy_arc in if snd st then a_to a else a_from a.
+
+(* walk back from l to k along the predecessor arcs (a predecessor entry that does not point at
+   the node it is stored for stops the walk: None) *)
 Fixpoint trace (fuel : nat) (arcs : list arc) (p : preds) (k v : nat) (acc : list (nat * bool))
   : option (list (nat * bool)) :=
   if (v =? k)%nat then Some acc else
@@ -105,24 +112,26 @@ Fixpoint trace (fuel : nat) (arcs : list arc) (p : preds) (k v : nat) (acc : lis
   | S f =>
       match nth v p None with
       | None => None
-      | Some (idx, fwd) =>
-          let a := nth idx arcs dummy_arc in
-          trace f arcs p k (if fwd then a_from a else a_to a) ((idx, fwd) :: acc)
+      | Some st =>
+          if (fst st <? length arcs)%nat && (step_dst arcs st =? v)%nat
+          then trace f arcs p k (step_src arcs st) (st :: acc)
+          else None
       end
   end.
 
+Definition net (a : arc) : Z := a_fp a - a_fm a.
+
 Definition path_delta (arcs : list arc) (path : list (nat * bool)) (d0 : Z) : Z :=
   fold_left (fun (dl : Z) (st : nat * bool) =>
-               let a := nth (fst st) arcs dummy_arc in
-               if snd st then dl else Z.min dl (a_fp a - a_fm a)) path d0.
+               if snd st then dl else Z.min dl (net (nth (fst st) arcs dummy_arc))) path d0.
+
+Definition add_flow (fwd : bool) (dl : Z) (a : arc) : arc :=
+  if fwd
+  then {| a_from := a_from a; a_to := a_to a; a_cost := a_cost a; a_fp := a_fp a + dl; a_fm := a_fm a |}
+  else {| a_from := a_from a; a_to := a_to a; a_cost := a_cost a; a_fp := a_fp a; a_fm := a_fm a + dl |}.
 
 Definition push (arcs : list arc) (path : list (nat * bool)) (dl : Z) : list arc :=
-  fold_left (fun (ar : list arc) (st : nat * bool) =>
-               upd ar (fst st) (fun a =>
-                 if snd st
-                 then {| a_from := a_from a; a_to := a_to a; a_cost := a_cost a; a_fp := a_fp a + dl; a_fm := a_fm a |}
-                 else {| a_from := a_from a; a_to := a_to a; a_cost := a_cost a; a_fp := a_fp a; a_fm := a_fm a + dl |}))
-            path arcs.
+  fold_left (fun (ar : list arc) (st : nat * bool) => upd ar (fst st) (add_flow (snd st) dl)) path arcs.
 
 Fixpoint ssp (fuel : nat) (e : list Z) (arcs : list arc) : option (list arc) :=
   let '(maxSupply, k) := pick_supply e O 0 O in
@@ -140,8 +149,12 @@ Fixpoint ssp (fuel : nat) (e : list Z) (arcs : list arc) : option (list arc) :=
           | None => None
           | Some path =>
               let dl := path_delta arcs path maxSupply in
-              if dl <=? 0 then None else
-              ssp f (upd (upd e k (fun x => x - dl)) l (fun x => x + dl)) (push arcs path dl)
+              let arcs' := push arcs path dl in
+              (* sanity of the step (never fails on the residual graphs that arise): positive
+                 amount, end points inside the graph, no arc driven below zero *)
+              if (0 <? dl) && (k <? nv)%nat && (l <? nv)%nat && forallb (fun a => 0 <=? net a) arcs'
+              then ssp f (upd (upd e k (fun x => x - dl)) l (fun x => x + dl)) arcs'
+              else None
           end
       end
   end.
